@@ -289,7 +289,7 @@ pub fn generate(w: &mut dyn Write, seed: u64, thorough: bool) {
                 }
                 crate::emit_case(w, &a2, exec);
                 for segs in cuts(&mut rng, &wire, 40, per) {
-                    crate::emit_case(w, &["vmbody".to_string(), opt.to_string(), sec.to_string(), peer.to_string(), hex(&sess), ops("D", &segs)], exec);
+                    crate::emit_case(w, &["vmbody".to_string(), opt.to_string(), sec.to_string(), peer.to_string(), hex(&sess), ops("D", &segs), format!("@x={}", hex(&writes.concat()))], exec);
                 }
                 // packet mode: sizes around every limit; each packet one chunk
                 let sizes: &[usize] = if thorough { &[0, 1, 100, 1400, 1993, 2047, 2048, 2049, 8192, 65456, 65457, 65507] } else { &[0, 1, 1400, 2049, 65456, 65457] };
@@ -305,7 +305,7 @@ pub fn generate(w: &mut dyn Write, seed: u64, thorough: bool) {
                 }
                 crate::emit_case(w, &a2, exec);
                 for segs in cuts(&mut rng, &pw, 30, per / 2 + 1) {
-                    crate::emit_case(w, &["vmbody".to_string(), opt.to_string(), sec.to_string(), peer.to_string(), hex(&sess), ops("U", &segs)], exec);
+                    crate::emit_case(w, &["vmbody".to_string(), opt.to_string(), sec.to_string(), peer.to_string(), hex(&sess), ops("U", &segs), format!("@x={}", hex(&pk[..pk.len().min(4)].concat()))], exec);
                 }
                 for big in &pops[4.min(pops.len())..] {
                     let mut a3 = vec!["vmbody".to_string(), opt.to_string(), sec.to_string(), role.to_string(), hex(&sess), big.clone()];
@@ -320,16 +320,16 @@ pub fn generate(w: &mut dyn Write, seed: u64, thorough: bool) {
                     let mut m = wire[..wire.len().min(700)].to_vec();
                     let bit = rng.below((m.len().min(120) * 8) as u64) as usize;
                     m[bit / 8] ^= 1 << (bit % 8);
-                    crate::emit_case(w, &["vmbody".to_string(), opt.to_string(), sec.to_string(), peer.to_string(), hex(&sess), format!("D{}", hex(&m))], exec);
+                    crate::emit_case(w, &["vmbody".to_string(), opt.to_string(), sec.to_string(), peer.to_string(), hex(&sess), format!("D{}", hex(&m)), format!("@p={}", hex(&writes.concat()))], exec);
                     let mut m = pw[..pw.len().min(700)].to_vec();
                     if !m.is_empty() {
                         let bit = rng.below((m.len().min(120) * 8) as u64) as usize;
                         m[bit / 8] ^= 1 << (bit % 8);
-                        crate::emit_case(w, &["vmbody".to_string(), opt.to_string(), sec.to_string(), peer.to_string(), hex(&sess), format!("U{}", hex(&m))], exec);
+                        crate::emit_case(w, &["vmbody".to_string(), opt.to_string(), sec.to_string(), peer.to_string(), hex(&sess), format!("U{}", hex(&m)), format!("@p={}", hex(&pk[..pk.len().min(4)].concat()))], exec);
                     }
                 }
                 // reflection: this role's own output comes back to it
-                crate::emit_case(w, &["vmbody".to_string(), opt.to_string(), sec.to_string(), role.to_string(), hex(&sess), format!("D{}", hex(&wire[..wire.len().min(3000)]))], exec);
+                crate::emit_case(w, &["vmbody".to_string(), opt.to_string(), sec.to_string(), role.to_string(), hex(&sess), format!("D{}", hex(&wire[..wire.len().min(3000)])), "@n".to_string()], exec);
             }
         }
     }
@@ -376,7 +376,7 @@ pub fn generate(w: &mut dyn Write, seed: u64, thorough: bool) {
                     for x in &resp_writes {
                         o.push_str(&format!(";{}{}", if opt & 8 != 0 { "e" } else { "E" }, hex(x)));
                     }
-                    let sa = vec!["vmsrv".to_string(), now.to_string(), users.clone(), o.clone()];
+                    let sa = vec!["vmsrv".to_string(), now.to_string(), users.clone(), o.clone(), format!("@x={}", hex(&writes.concat()))];
                     if si == 0 {
                         let o2 = o.replace(";e", ";E");
                         let sa2 = vec!["vmsrv".to_string(), now.to_string(), users.clone(), o2];
@@ -388,28 +388,29 @@ pub fn generate(w: &mut dyn Write, seed: u64, thorough: bool) {
                 if !resp.is_empty() {
                     for segs in cuts(&mut rng, &resp, 60, per) {
                         let o = format!("e{};{}", hex(&writes[0]), ops("D", &segs));
-                        crate::emit_case(w, &["vmcli".to_string(), uuid.clone(), opt.to_string(), sec.to_string(), cmd.to_string(), addr.clone(), hex(&sess), now.to_string(), o], exec);
+                        let xp = resp_writes.concat();
+                        crate::emit_case(w, &["vmcli".to_string(), uuid.clone(), opt.to_string(), sec.to_string(), cmd.to_string(), addr.clone(), hex(&sess), now.to_string(), o, format!("@x={}", hex(&xp))], exec);
                     }
                     // the same response presented to a client with another session: must be refused
                     let other = rng.bytes(33);
                     let o = format!("e{};D{}", hex(&writes[0]), hex(&resp));
-                    crate::emit_case(w, &["vmcli".to_string(), uuid.clone(), opt.to_string(), sec.to_string(), cmd.to_string(), addr.clone(), hex(&other), now.to_string(), o], exec);
+                    crate::emit_case(w, &["vmcli".to_string(), uuid.clone(), opt.to_string(), sec.to_string(), cmd.to_string(), addr.clone(), hex(&other), now.to_string(), o, "@n".to_string()], exec);
                     // reflection of the request to the client
                     let o = format!("e{};D{}", hex(&writes[0]), hex(&req));
-                    crate::emit_case(w, &["vmcli".to_string(), uuid.clone(), opt.to_string(), sec.to_string(), cmd.to_string(), addr.clone(), hex(&sess), now.to_string(), o], exec);
+                    crate::emit_case(w, &["vmcli".to_string(), uuid.clone(), opt.to_string(), sec.to_string(), cmd.to_string(), addr.clone(), hex(&sess), now.to_string(), o, "@n".to_string()], exec);
                 }
                 // truncations and flips of the request head; unknown user; stale auth id (clock +-120/121 and far)
                 if ci < 3 || thorough {
                     for cut in (0..(head_len + 30).min(req.len())).step_by(if thorough { 1 } else { 2 }) {
-                        crate::emit_case(w, &["vmsrv".to_string(), now.to_string(), users.clone(), format!("D{}", hex(&req[..cut]))], exec);
+                        crate::emit_case(w, &["vmsrv".to_string(), now.to_string(), users.clone(), format!("D{}", hex(&req[..cut])), format!("@p={}", hex(&writes.concat()))], exec);
                     }
                     for _ in 0..(if thorough { 300 } else { 30 }) {
                         let mut m = req.clone();
                         let bit = rng.below((head_len * 8) as u64) as usize;
                         m[bit / 8] ^= 1 << (bit % 8);
-                        crate::emit_case(w, &["vmsrv".to_string(), now.to_string(), users.clone(), format!("D{}", hex(&m))], exec);
+                        crate::emit_case(w, &["vmsrv".to_string(), now.to_string(), users.clone(), format!("D{}", hex(&m)), format!("@p={}", hex(&writes.concat()))], exec);
                     }
-                    crate::emit_case(w, &["vmsrv".to_string(), now.to_string(), uuids[2].clone(), format!("D{}", hex(&req))], exec);
+                    crate::emit_case(w, &["vmsrv".to_string(), now.to_string(), uuids[2].clone(), format!("D{}", hex(&req)), "@n".to_string()], exec);
                     for dt in [-151i64, -150, -149, -91, -90, -89, 0, 89, 90, 91, 149, 150, 151, 100000] {
                         crate::emit_case(w, &["vmsrv".to_string(), (now + dt).to_string(), users.clone(), format!("D{}", hex(&req))], exec);
                     }
@@ -419,7 +420,7 @@ pub fn generate(w: &mut dyn Write, seed: u64, thorough: bool) {
     }
     // random bytes to server and client
     for l in (0..120).step_by(if thorough { 1 } else { 3 }) {
-        crate::emit_case(w, &["vmsrv".to_string(), now.to_string(), uuids[0].clone(), format!("D{}", hex(&rng.bytes(l)))], exec);
-        crate::emit_case(w, &["vmcli".to_string(), uuids[0].clone(), "13".into(), "3".into(), "1".into(), addrs[0].clone(), hex(&rng.bytes(33)), now.to_string(), format!("eaa;D{}", hex(&rng.bytes(l)))], exec);
+        crate::emit_case(w, &["vmsrv".to_string(), now.to_string(), uuids[0].clone(), format!("D{}", hex(&rng.bytes(l))), "@n".to_string()], exec);
+        crate::emit_case(w, &["vmcli".to_string(), uuids[0].clone(), "13".into(), "3".into(), "1".into(), addrs[0].clone(), hex(&rng.bytes(33)), now.to_string(), format!("eaa;D{}", hex(&rng.bytes(l))), "@n".to_string()], exec);
     }
 }
